@@ -17,12 +17,27 @@ theorem C15_once (s : St) (i : In) (o : Outcome) (h : s.fired = some o) (hs : s.
   cases i with
   | reply => simp [step, h, hs]
   | ev e => simp [step, hs, h]
+  | lost => simp [step, h, hs]
+
+/-- **Connection lost.** No further event can arrive: a wait that has not completed fails — once — and is
+unsubscribed; one that has completed is left as it is. -/
+theorem C15_lost (s : St) :
+    (s.fired = none → (step s .lost).fired = some .fail ∧ (step s .lost).subscribed = false) ∧
+    (∀ o, s.fired = some o → step s .lost = s) := by
+  constructor
+  · intro h; simp [step, h]
+  · intro o h; simp [step, h]
 
 /-- firing always drops the subscription — on success and on failure alike -/
 theorem C15_unsubscribed (s : St) (i : In) (hinv : s.fired.isSome → s.subscribed = false) :
     (step s i).fired.isSome → (step s i).subscribed = false := by
   cases i with
   | reply => simpa [step] using hinv
+  | lost =>
+    simp only [step]
+    split
+    · exact hinv
+    · intro _; rfl
   | ev e =>
     simp only [step]
     by_cases hsub : s.subscribed = true
@@ -360,6 +375,7 @@ def DiscHist : St → List In → Prop
   | _, [] => True
   | s, .reply :: r => DiscHist (step s .reply) r
   | s, .ev e :: r => Disciplined s e ∧ DiscHist (step s (.ev e)) r
+  | _, .lost :: _ => False          -- histories in which the connection is lost are `C15_lost`'s
 
 /-- the good states of await-all mode -/
 structure Good (s : St) : Prop where
@@ -373,6 +389,7 @@ structure Good (s : St) : Prop where
 
 theorem good_step (s : St) (i : In) (hg : Good s) (hd : DiscHist s [i]) : Good (step s i) := by
   cases i with
+  | lost => exact absurd hd (by simp [DiscHist])
   | reply =>
     exact ⟨hg.mode, ⟨hg.tidy.1, hg.tidy.2, hg.tidy.3, hg.tidy.4, hg.tidy.5, hg.tidy.6⟩, hg.notMissed, hg.deaf,
       hg.listening, hg.okRight, hg.failRight⟩
@@ -406,10 +423,12 @@ theorem C15_all_run (h : List In) (s : St) (hg : Good s) (hd : DiscHist s h) : G
       cases i with
       | reply => trivial
       | ev e => exact ⟨hd.1, trivial⟩
+      | lost => exact absurd hd (by simp [DiscHist])
     have hd2 : DiscHist (step s i) rest := by
       cases i with
       | reply => exact hd
       | ev e => exact hd.2
+      | lost => exact absurd hd (by simp [DiscHist])
     exact ih (step s i) (good_step s i hg hd1) hd2
 
 theorem good_init : Good { awaitAll := true } :=
